@@ -74,20 +74,31 @@ def type_node(ann, ctx):
 
 
 def class_fields(cls, ctx):
-    """{name: [node, required]} from the constructor signature (required = no default)."""
+    """{name: [node, required]} from the constructor signature (required = no default).  A parameter whose name
+    begins with an underscore and that HAS a default is no key (documented: "considered internal and ignored"); one
+    without a default is an ordinary required key (the class cannot be instantiated without it)."""
     out = {}
     if dataclasses.is_dataclass(cls):
         hints = typing.get_type_hints(cls)
         for f in dataclasses.fields(cls):
             req = f.default is dataclasses.MISSING and f.default_factory is dataclasses.MISSING
-            out[f.name] = [type_node(hints[f.name], ctx), req]
+            if req or not f.name.startswith("_"):
+                out[f.name] = [type_node(hints[f.name], ctx), req]
         return out
     sig = inspect.signature(cls.__init__)
     hints = typing.get_type_hints(cls.__init__)
     for name, p in list(sig.parameters.items())[1:]:
         assert p.kind is p.POSITIONAL_OR_KEYWORD, "fixture classes take no *args / **kwargs (dict_kwargs not judged)"
-        out[name] = [type_node(hints[name], ctx), p.default is p.empty]
+        if p.default is p.empty or not name.startswith("_"):
+            out[name] = [type_node(hints[name], ctx), p.default is p.empty]
     return out
+
+
+def hidden_keys(cls):
+    """Optional underscore-named parameters of a fixture class (not keys, see class_fields)."""
+    if dataclasses.is_dataclass(cls):
+        return [f.name for f in dataclasses.fields(cls) if f.name.startswith("_") and f.name not in class_fields(cls, "value")]
+    return [n for n in list(inspect.signature(cls.__init__).parameters)[1:] if n.startswith("_") and n not in class_fields(cls, "value")]
 
 
 def subclasses(base_name):
@@ -102,9 +113,15 @@ def subclasses(base_name):
     return [c.__name__ for c in found]
 
 
-def init_args_rec(cls_name):
+def init_args_rec(cls_name, linked=()):
+    """rec of the init_args of a class.  `linked`: parameters that are the target of an argument link of the enclosing
+    class-typed argument - derived by the parser, neither required nor to be given (reserved names)."""
     cls = getattr(lib(), cls_name)
-    return {"k": "rec", "label": "init_args", "cls": cls_name, "fields": class_fields(cls, "value"), "subs": None}
+    fields = {n: f for n, f in class_fields(cls, "value").items() if n not in linked}
+    rec = {"k": "rec", "label": "init_args", "cls": cls_name, "fields": fields, "subs": None}
+    if linked:
+        rec["reserved"] = [n for n in linked if n in class_fields(cls, "value")]
+    return rec
 
 
 def class_path(cls_name):
@@ -117,6 +134,13 @@ def class_path(cls_name):
 #   ["classgroup", key, ClassName]                 add_class_arguments(Class, key)
 #   ["subclass", key, ClassName, required]         add_subclass_arguments(Class, key, required=..)
 #   ["parser", key, parser]                        add_argument("--key", action=ActionParser(parser=<parser>))
+#   ["link", source_key, target_key]               link_arguments(source, target)  (applied on parse; issued after the
+#                                                  arguments of the level).  The target is derived: no longer required,
+#                                                  not to be given; everything else stays as declared
+# "arg" / "classgroup" / "subclass" take an optional last element {options}: {"as_group": False} (class group / subclass
+# argument added directly to the parser instead of into an argument group of its own), {"group": title} ("arg": added
+# through parser.add_argument_group(title).add_argument) - presentation options that must not change which keys are
+# defined or required
 # type_expr: "int" | "str" | ClassName or alias name in the fixture module | ["List", t] | ["Dict", t] | ["Optional", t]
 # A parser is {"args": [...], "sub": None | {"dest": str, "required": bool, "choices": {name: parser}}}
 
@@ -203,7 +227,56 @@ SHAPES = {
     ),
 }
 
+# construction axes: HOW the arguments are declared (the keys and their being required must not depend on it)
+SHAPES.update(
+    {
+        # argument links: targets are an init arg of a required add_subclass_arguments argument, an init arg of a
+        # required class-typed argument, a required leaf, a required field of a dataclass group; sources a class-group
+        # parameter and a required leaf
+        "links": P(
+            [
+                ["classgroup", "src", "Src"],
+                ["arg", "a", "int", True],
+                ["subclass", "model", "Base", True],
+                ["arg", "obj", "Leaf", True],
+                ["arg", "lim", "int", True],
+                ["arg", "pt", "Pt", False],
+                ["link", "src.size", "model.init_args.r"],
+                ["link", "src.size", "obj.init_args.n"],
+                ["link", "a", "lim"],
+                ["link", "a", "pt.x"],
+            ]
+        ),
+        # key names that begin with an underscore, in every node kind that takes its keys from a signature
+        "underscore": P(
+            [
+                ["arg", "up", "UPt", False],
+                ["arg", "uo", ["Optional", "UPt"], False],
+                ["classgroup", "ug", "UGrp"],
+                ["arg", "uc", "UCl", True],
+                ["arg", "lu", ["List", "UPt"], False],
+            ]
+        ),
+        # presentation options: as_group=False, arguments added through an explicit argument group
+        "ungrouped": P(
+            [
+                ["subclass", "model", "Leaf", True, {"as_group": False}],
+                ["classgroup", "cg", "Grp", {"as_group": False}],
+                ["arg", "a", "int", True, {"group": "Explicit group"}],
+                ["arg", "g.uno", "int", True, {"group": "Explicit group"}],
+                ["arg", "obj", "Leaf", True, {"group": "Explicit group"}],
+                ["arg", "b", "int", False],
+            ]
+        ),
+    }
+)
+CONSTRUCTION_SHAPES = ("links", "underscore", "ungrouped")
+
 QUICK_SHAPES = list(SHAPES)
+
+
+def decl_options(decl):
+    return decl[-1] if isinstance(decl[-1], dict) else {}
 
 
 def resolve_type(expr):
@@ -233,25 +306,38 @@ def build_parser(
     parser = jsonargparse.ArgumentParser(**kw)
     if _config:
         parser.add_argument("--config", action=jsonargparse.ActionConfigFile)
+    groups = {}
     for decl in shape["args"]:
+        opts = decl_options(decl)
+        extra = {"as_group": opts["as_group"]} if "as_group" in opts else {}
         if decl[0] == "arg":
-            _, name, texpr, required = decl
+            _, name, texpr, required = decl[:4]
             t = resolve_type(texpr)
             kwargs = {"type": t}
             if required:
                 kwargs["required"] = True
             elif not (inspect.isclass(t) and dataclasses.is_dataclass(t)):
                 kwargs["default"] = None
-            parser.add_argument("--" + name, **kwargs)
+            container = parser
+            if "group" in opts:
+                if opts["group"] not in groups:
+                    groups[opts["group"]] = parser.add_argument_group(opts["group"])
+                container = groups[opts["group"]]
+            container.add_argument("--" + name, **kwargs)
         elif decl[0] == "classgroup":
-            parser.add_class_arguments(getattr(lib(), decl[2]), decl[1])
+            parser.add_class_arguments(getattr(lib(), decl[2]), decl[1], **extra)
         elif decl[0] == "subclass":
-            parser.add_subclass_arguments(getattr(lib(), decl[2]), decl[1], required=decl[3])
+            parser.add_subclass_arguments(getattr(lib(), decl[2]), decl[1], required=decl[3], **extra)
+        elif decl[0] == "link":
+            continue  # after all arguments of the level
         elif decl[0] == "parser":
             inner = build_parser(decl[2], exit_on_error=exit_on_error, parser_mode=parser_mode, _top=False, _config=False)
             parser.add_argument("--" + decl[1], action=jsonargparse.ActionParser(parser=inner))
         else:
             raise AssertionError(decl)
+    for decl in shape["args"]:
+        if decl[0] == "link":
+            parser.link_arguments(decl[1], decl[2])
     if shape["sub"]:
         sub = shape["sub"]
         action = parser.add_subcommands(required=sub["required"], dest=sub["dest"])
@@ -294,8 +380,9 @@ def parser_schema(shape, label="top"):
     """rec node of a parser: its arguments (dotted names nested as dotted-group recs) and its subcommands."""
     rec = {"k": "rec", "label": label, "fields": {}, "subs": None}
     for decl in shape["args"]:
+        opts = decl_options(decl)
         if decl[0] == "arg":
-            _, name, texpr, required = decl
+            _, name, texpr, required = decl[:4]
             node = type_expr_node(texpr, "group")
             parts = name.split(".")
             cur = rec
@@ -306,14 +393,22 @@ def parser_schema(shape, label="top"):
             cur["fields"][parts[-1]] = [node, required]
         elif decl[0] == "classgroup":
             cls = getattr(lib(), decl[2])
+            # as_group=False: the parameters are plain dotted arguments of the parser, no option for the whole group
+            label = "class-group" if opts.get("as_group", True) else "class-args-ungrouped"
             rec["fields"][decl[1]] = [
-                {"k": "rec", "label": "class-group", "cls": decl[2], "fields": class_fields(cls, "group"), "subs": None},
+                {"k": "rec", "label": label, "cls": decl[2], "fields": class_fields(cls, "group"), "subs": None},
                 False,
             ]
         elif decl[0] == "subclass":
-            rec["fields"][decl[1]] = [{"k": "spec", "base": decl[2], "how": "add_subclass_arguments"}, decl[3]]
+            node = {"k": "spec", "base": decl[2], "how": "add_subclass_arguments"}
+            if not opts.get("as_group", True):
+                node["tag"] = "ungrouped"
+            rec["fields"][decl[1]] = [node, decl[3]]
         elif decl[0] == "parser":
             rec["fields"][decl[1]] = [parser_schema(decl[2], "parser-group"), False]
+    for decl in shape["args"]:
+        if decl[0] == "link":
+            _apply_link(rec, decl[2])
     if shape["sub"]:
         sub = shape["sub"]
         rec["subs"] = {
@@ -324,11 +419,38 @@ def parser_schema(shape, label="top"):
     return rec
 
 
+def _apply_link(rec, target):
+    """Schema effect of link_arguments(.., target): the target key is derived - removed from the keys a configuration
+    gives (so no longer required), its name stays reserved (not usable as a foreign key).  A target below the
+    init_args of a class-typed argument is recorded at that argument's spec node (`linked`), which is tagged: the
+    argument itself and all its other parameters stay exactly as declared."""
+    parts = target.split(".")
+    cur = rec
+    for i, part in enumerate(parts):
+        node = cur["fields"][part][0]
+        if i == len(parts) - 1:
+            del cur["fields"][part]
+            cur.setdefault("reserved", []).append(part)
+            return
+        if node["k"] == "spec":
+            assert parts[i + 1] == "init_args" and len(parts) == i + 3, target
+            node.setdefault("linked", []).append(parts[i + 2])
+            node["tag"] = "linked-init-arg"
+            return
+        assert node["k"] == "rec", target
+        cur = node
+    raise AssertionError(target)
+
+
+GROUP_LIKE = ("dotted-group", "dataclass-group", "class-group", "parser-group", "class-args-ungrouped")
+NO_OWN_OPTION = ("dotted-group", "class-args-ungrouped")  # group-like nodes that exist only through their members
+
+
 def has_required(node):
     """True iff a value of this node cannot be left out: the node is a group-like rec with a required key below."""
     if node["k"] != "rec":
         return False
-    if node["label"] not in ("dotted-group", "dataclass-group", "class-group", "parser-group"):
+    if node["label"] not in GROUP_LIKE:
         return False
     return any(req or has_required(child) for child, req in node["fields"].values())
 
@@ -348,7 +470,7 @@ def gen_value(node, mode, variant):
     if k == "spec":
         classes = subclasses(node["base"])
         cls = classes[variant % len(classes)]
-        return {"class_path": class_path(cls), "init_args": gen_rec(init_args_rec(cls), mode, variant)}
+        return {"class_path": class_path(cls), "init_args": gen_rec(init_args_rec(cls, node.get("linked", ())), mode, variant)}
     if k == "list":
         n = 1 if mode == "min" else 2
         # items differ in the selected class so that every list position sees every class over the variants
@@ -454,7 +576,7 @@ def walk(node, value, path=(), ctx="root", alts=()):
         cls = value["class_path"].rsplit(".", 1)[1]
         if isinstance(value.get("init_args"), dict):
             others = tuple(c for c in subclasses(node["base"]) if c != cls)
-            yield from walk(init_args_rec(cls), value["init_args"], path + ("init_args",), how, others)
+            yield from walk(init_args_rec(cls, node.get("linked", ())), value["init_args"], path + ("init_args",), how, others)
     elif k == "list":
         for i, item in enumerate(value):
             yield from walk(node["of"], item, path + (i,), "list-item-first" if i == 0 else "list-item-later")
@@ -470,7 +592,7 @@ def defined_keys(node, value):
     """Keys the schema defines at a mapping node."""
     if node["k"] == "spec":
         return {"class_path", "init_args", "dict_kwargs"}
-    keys = set(node["fields"])
+    keys = set(node["fields"]) | set(node.get("reserved", ()))
     if node.get("subs"):
         keys |= {node["subs"]["dest"], *node["subs"]["choices"]}
     return keys
@@ -628,7 +750,7 @@ def mutations(schema, cfg, subpath=(), rich=False, values=(1,), related=True, re
             if name not in value:
                 continue
             if req or has_required(child):
-                sub_kind = _req_kind(child, req) + "@" + label
+                sub_kind = _req_kind(child, req) + "@" + label + (":underscore-name" if name.startswith("_") else "")
                 out.append(["remove", list(path) + [name], sub_kind])
                 out.append(["null", list(path) + [name], sub_kind])
         if node.get("subs") and node["subs"]["required"]:
@@ -656,9 +778,25 @@ def section_has_required(rec):
 
 
 def _req_kind(child, req):
+    """Kind of a required key; a construction tag of the node (`linked-init-arg`: one of its init args is the target of a
+    link; `ungrouped`: declared with as_group=False) is part of the kind - a root cause of its own."""
     if child["k"] == "rec":
         return ("required-" if req else "has-required-") + child["label"]
-    return "required-" + child["k"]
+    return "required-" + child["k"] + ("-" + child["tag"] if child.get("tag") else "")
+
+
+def link_sources(shape):
+    """Source keys of the argument links declared at the root level of a shape."""
+    return sorted({decl[1] for decl in shape["args"] if decl[0] == "link"})
+
+
+def has_key(cfg, dotted):
+    cur = cfg
+    for part in dotted.split("."):
+        if not isinstance(cur, dict) or cur.get(part) is None:
+            return False
+        cur = cur[part]
+    return True
 
 
 def schema_at(schema, cfg, path):
